@@ -46,7 +46,7 @@ type c10Meta struct {
 	Cycle   bool              `json:"cross_file_cycle"`
 	// CrossCombo: some allOf/anyOf branch $ref points into another file (its
 	// properties are merged into the referrer: known finding KF-C10-2)
-	CrossCombo bool `json:"crossfile_combinator"`
+	CrossCombo bool              `json:"crossfile_combinator"`
 	PkgOf      map[string]string `json:"pkg_of"`    // tag -> package (base name) its id maps to
 	OutOf      map[string]string `json:"out_of"`    // tag -> output file ("-" = stdout) its id maps to in these runs
 	RecCombo   bool              `json:"rec_combo"` // a reference cycle runs through an allOf/anyOf branch
@@ -58,7 +58,7 @@ type c10Meta struct {
 	CrossPkgAnyOf bool `json:"crosspackage_anyof_ref"`
 	// CrossPkgEnum: a combinator ref crosses packages and its target holds an integer enum.
 	CrossPkgEnum bool `json:"crosspackage_merged_integer_enum"`
-	Feat    Feat              `json:"feat"`
+	Feat         Feat `json:"feat"`
 }
 
 // modelResolve is the reference model of file resolution, written from the
@@ -164,11 +164,9 @@ func (p c10) Gen(t *rapid.T, env *Env) (*Case, []*Out) {
 				tf := w.File(r.ToTag)
 				var sub any = tf.Doc
 				if r.ToDef != "" {
-					for _, k := range []string{"$defs", "definitions"} {
-						if d, ok := tf.Doc.Get(k); ok {
-							if do, ok := d.(Obj); ok {
-								sub, _ = do.Get(r.ToDef)
-							}
+					if d, ok := tf.Doc.Get(defsKey(tf.Doc)); ok {
+						if do, ok := d.(Obj); ok {
+							sub, _ = do.Get(r.ToDef)
 						}
 					}
 				} else {
@@ -420,7 +418,7 @@ func (p c10) Eval(c *Case, outs []*Out) []Discrepancy {
 			}
 			th, ok := holder[toMk]
 			if !ok {
-				add("A", "target-not-emitted", fmt.Sprintf("$ref %q (property %q of %s) should denote %s but package %s has no struct carrying it; field type is %s", r.Ref, r.Prop, h.name, toMk, meta.PkgOf[r.ModelTag], ft))
+				add("A", "target-not-emitted:"+r.Spelling, fmt.Sprintf("$ref %q (property %q of %s) should denote %s but package %s has no struct carrying it; field type is %s", r.Ref, r.Prop, h.name, toMk, meta.PkgOf[r.ModelTag], ft))
 				continue
 			}
 			if th.name != base || th.pkg != pkg {
